@@ -133,7 +133,7 @@ CLAIMED = {
 }
 CONF = {"C01", "C02", "C03", "C05", "C07", "C08", "C09", "C10", "C11", "C13", "C15", "C16"}
 CONF_TEXT = (" In addition, seeded random CONFIGURED dataclass families (options x flags x Config.dialect x strategy tables x three alias sources x defaults x nested opt-in; "
-             "200 families quick / 3000 thorough, a slice of its own per property) are driven through several mixin calls with keyword arguments and call dialects, mutated inputs and codec objects "
+             "200 families quick / 1500 thorough, a slice of its own per property) are driven through several mixin calls with keyword arguments and call dialects, mutated inputs and codec objects "
              "with / without a default_dialect; every recorded call is judged by TLC (CoreTrace) under the call's own context, and this property reads its own clauses of the verdicts.")
 EXTRA = {
     "C04": " Codec objects are also constructed with a default_dialect that customises nothing the subject contains (same documents expected).",
